@@ -66,9 +66,12 @@ def work(args):
             what = "no fault"
             if rec["wr"]["kind"] != "none":
                 r["wfail_call"] = rec["wr"]["k"]
-                r["wshort"] = rec["wr"]["kind"] == "short"
-                r["wonce"] = rec["wr"]["kind"] == "once"
-                what = "write #%d %s" % (rec["wr"]["k"], "is short" if r["wshort"] else "fails once (later writes would succeed)" if r["wonce"] else "fails")
+                r["wshort"] = rec["wr"]["kind"] in ("short", "shortonce")
+                r["wonce"] = rec["wr"]["kind"] in ("once", "shortonce")
+                # the error value a real descriptor would give (a *PathError around an errno), or an opaque one
+                r["werrno"] = ["", "EAGAIN", "ENOSPC", "EINTR", "EPIPE", "EAGAIN"][(seq_no + variant + rec["wr"]["k"]) % 6]
+                what = "write #%d %s%s" % (rec["wr"]["k"], "is short" if r["wshort"] else "fails", " once (later writes would succeed)" if r["wonce"] else "") \
+                    + (" with " + r["werrno"] if r["werrno"] else "")
             if rec["rd"]["on"]:
                 li = rec["rd"]["line"]
                 if li <= len(lines):
@@ -102,7 +105,7 @@ def work(args):
                 triggered = True          # the reader returns the error instead of EOF at the latest
         else:
             triggered = True
-        judge_fault_run(res, what, rep, a, ff_out, triggered, short=rec["wr"]["kind"] == "short")
+        judge_fault_run(res, what, rep, a, ff_out, triggered, short=rec["wr"]["kind"] in ("short", "shortonce"))
         if a.get("panic") is None:
             out = common.unb64(a["out_b64"])
             chunks = sl.split_writes(out, a.get("writes") or [])
@@ -250,7 +253,8 @@ def cli_faults(b, v, tier, seed):
             nobj = sum(1 for k in kinds if k in sl.OBJ_KINDS)
             for src, oc in (("file", "file"), ("stdin", "file"), ("file", "stdout")):
                 for k in sorted(set([1, 2, nobj])):
-                    outp = os.path.join(wd, "inj.out")
+                    # (the output file is named the way the README's own example names it - redacted.log.gz - every other time)
+                    outp = os.path.join(wd, "inj.out" if (k + len(src)) % 2 else "inj.redacted.log.gz")
                     if os.path.exists(outp):
                         os.remove(outp)
                     args = [b.cli, "redact"] + ([inp] if src == "file" else []) + cfg.flags + (["-o", outp] if oc == "file" else [])
@@ -326,7 +330,7 @@ def run(tier):
     if not b.inproc or "stream" not in b.ops:
         raise common.Infra("in-process stream driver needed for exact k-th read/write faults")
     maxlen = 3 if tier == "quick" else 4
-    t = sl.run_stream_mc(KINDS, maxlen, wrkinds=("none", "err", "once", "short"), rd_on=True, bars=(True, False))
+    t = sl.run_stream_mc(KINDS, maxlen, wrkinds=("none", "err", "once", "short", "shortonce"), rd_on=True, bars=(True, False))
     recs = list(enumerate(t.records))
     _G.update(b=b, pool=sl.Pool(v.seed), cfgs=sl.stream_cfgs("full"), seed=v.seed, variants=2 if tier == "quick" else 3)
     chunks = [(i, c) for i, c in enumerate(common.chunks(recs, 400))]
